@@ -80,18 +80,45 @@ def atom(name, args):
     return {f"{name}({'; '.join(strs)})": Fraction(1)}
 
 
+def _mono(k1, k2):
+    """product of two monomials (ONE, a symbol/atom, or `f1*f2*...` with sorted factors)"""
+    fs = []
+    for k in (k1, k2):
+        if k == ONE:
+            continue
+        fs += _factors(k)
+    if not fs:
+        return ONE
+    return "*".join(sorted(fs))
+
+
+def _factors(k):
+    """split a monomial key at top-level `*` (not inside parentheses)"""
+    out, depth, cur = [], 0, ""
+    for ch in str(k):
+        if ch == "(":
+            depth += 1
+        elif ch == ")":
+            depth -= 1
+        if ch == "*" and depth == 0:
+            out.append(cur)
+            cur = ""
+        else:
+            cur += ch
+    out.append(cur)
+    return out
+
+
 def mul(a, b):
-    """product of two non-constant forms: scalar content factored out, operands ordered"""
-    f = Fraction(1)
-    ops = []
-    for x in (a, b):
-        # primitive part: the coefficient of the first symbol (in name order) is factored out
-        keys = sorted((k for k in x if k != ONE), key=str)
-        c = x[keys[0]] if keys else Fraction(1)
-        f *= c
-        ops.append({k: v / c for k, v in x.items()})
-    at = atom("mul", sorted(ops, key=canon))
-    return None if at is None else L._scale(at, f)
+    """product of two forms, distributed into monomials: the domain is polynomial in its symbols and atoms"""
+    out = {}
+    for k1, c1 in a.items():
+        for k2, c2 in b.items():
+            k = _mono(k1, k2)
+            out[k] = out.get(k, 0) + c1 * c2
+            if out[k] == 0:
+                del out[k]
+    return out
 
 
 def equal(a, b):
